@@ -199,7 +199,7 @@ class Check:
         tag = label or (module + "-" + os.path.basename(cfg).replace(".cfg", ""))
         meta = os.path.join(self.scratch, "meta-" + tag + "-%d" % len(self.tlc_runs))
         env = dict(os.environ)
-        jopts = "-Xss256m"
+        jopts = "-Xss256m -Djava.io.tmpdir=" + self.scratch     # (TLC leaves an empty tlc-* directory per run in java.io.tmpdir)
         if deque:
             jopts += " -Dtlc2.tool.queue.IStateQueue=StateDeque"
         env["JAVA_TOOL_OPTIONS"] = (env.get("JAVA_TOOL_OPTIONS", "") + " " + jopts).strip()
